@@ -225,14 +225,14 @@ def jobs(tier, seed=0):
     for ti, tree in enumerate(TREES3):
         sts = [x for x in structures(tree, self_pairs=False, kinds=(0, 1, 4)) if 4 in x.values()]
         sel = [x for i, x in enumerate(sts) if (i + seed + ti) % (24 if q else 3) == 0]
-        for ci, ch in enumerate(chunks(sel, 8)):
+        for ci, ch in enumerate(chunks(sel, 3)):
             out.append({'id': f'a3|t{ti}|c{ci}', 'harness': 'vk.kernels.c06:cycles', 'params': {'tree': tree, 'structs': ch}, 'budget_s': 300})
     # three simulators, no self-pairs
     for ti, tree in enumerate(TREES3):
         sts = structures(tree, self_pairs=False, kinds=(0, 1, 2))
         # rotating slice (quick 1/16, thorough 1/2), each selected structure explored completely
         sts = [s for i, s in enumerate(sts) if (i + seed) % (16 if q else 2) == 0]
-        for ci, ch in enumerate(chunks(sts, 24)):
+        for ci, ch in enumerate(chunks(sts, 6 if q else 24)):
             out.append({'id': f'n3|t{ti}|c{ci}', 'harness': 'vk.kernels.c06:cycles', 'params': {'tree': tree, 'structs': ch}, 'budget_s': 600})
     # three simulators: a weak connection inside a group and a cycle through it that passes the third simulator (which may or may
     # not be in that group): the configuration in which group identity matters.  Always complete, also in the quick tier.
